@@ -105,6 +105,14 @@ class Model:
                     raise AnalysisError(f"cannot parse {rel}: {e}")
                 self.mods[rel] = tree
                 self.src[rel] = text
+        # normalisation: helpers that did not exist on the pinned tree are inlined into
+        # their callers (sa/inline.py), so an "extract helper" refactoring does not hide
+        # statements from rules that were written against the un-extracted shape
+        self.inlined, self.dropped_helpers = [], []
+        if not os.environ.get("VERIF_NO_INLINE"):
+            from . import inline
+
+            self.inlined, self.dropped_helpers = inline.normalise(self.mods)
         for rel, tree in self.mods.items():
             for n in ast.walk(tree):
                 for ch in ast.iter_child_nodes(n):
